@@ -197,6 +197,25 @@ def U(names, maxn, stars=STARS2):
     return r
 
 
+_strata = {}
+
+
+def pick_stratified(rnd, names, maxn, stars=STARS2):
+    """A parameter list of U(names, maxn) drawn by first choosing the *kind profile* (how many positional-only,
+    positional-or-keyword, keyword-only parameters, which star parameters) uniformly and then a member of it:
+    rare combinations (two positional-only followed by two positional-or-keyword, ...) come up as often as common ones."""
+    key = (tuple(names), maxn, stars)
+    groups = _strata.get(key)
+    if groups is None:
+        by = {}
+        for p in U(names, maxn, stars):
+            prof = (sum(1 for x in p if x[1] == PO), sum(1 for x in p if x[1] == PK), sum(1 for x in p if x[1] == KO),
+                    has_kind(p, VA), has_kind(p, VK))
+            by.setdefault(prof, []).append(p)
+        groups = _strata[key] = [by[k] for k in sorted(by)]
+    return rnd.choice(rnd.choice(groups))
+
+
 def decorate_meta(params, rnd, ann_pool=('T', 'U', 'V'), default_base=10, p_ann=0.5):
     """Extended universe: distinct default values and annotations on a random subset."""
     out = []
